@@ -250,9 +250,13 @@ def key_material(r):
 
 def sig_programs(r, n):
     """real signatures: (scriptSig, scriptPubKey, flags, txd, idx)"""
-    from bitcoin.core.script import CScript, CScriptOp, SignatureHash, OP_CHECKSIG, OP_CHECKSIGVERIFY, OP_CHECKMULTISIG, OP_DUP, \
+    from bitcoin.core.script import CScript, CScriptOp, RawSignatureHash, OP_CHECKSIG, OP_CHECKSIGVERIFY, OP_CHECKMULTISIG, OP_DUP, \
         OP_HASH160, OP_EQUALVERIFY, OP_CODESEPARATOR, OP_EQUAL
     from bitcoin.core import Hash160
+
+    def SignatureHash(spk_, tx_, idx_, ht_):
+        # SIGHASH_SINGLE without a matching output signs the digest "one" (the interpreter does the same)
+        return RawSignatureHash(spk_, tx_, idx_, ht_)[0]
     ks = key_material(r)
     out = []
     for i in range(n):
